@@ -577,6 +577,36 @@ class Gen:
         if kind == "expr":
             return self.expr(t)
         self.feat("program:" + kind)
+        if kind == "repoint-local":
+            # one straight-line block reading the SAME property through a pointer variable before and after the variable
+            # is re-assigned to another dynamically chosen object
+            pt = t if t in (INT, STR, BOOL, DOUBLE, UINT, MODE) else INT
+            p = self.rng.choice(VF_PROPS[pt])
+            w, x = self.fresh(), self.fresh()
+            first = N("prop", PTR, (self.obj_expr(self.max_depth),), v=self.rng.choice(VF_PROPS[PTR]))
+            self.locals[-1][w] = (PTR, False)
+            second = N("prop", PTR, (self.obj_expr(self.max_depth),), v=self.rng.choice(VF_PROPS[PTR]))
+            stmts = [N("let", VOID, (first,), v=(w, PTR, False, True)),
+                     N("let", VOID, (N("prop", pt, (N("local", PTR, v=w),), v=p),), v=(x, pt, False, False)),
+                     N("assign", VOID, (second,), v=w)]
+            self.locals[-1][x] = (pt, True)
+            y = N("prop", pt, (N("local", PTR, v=w),), v=p)
+            xl = N("local", pt, v=x)
+            if t == pt and pt in (INT,):
+                res = N("minmax", INT, (xl, y), v="max")
+            elif t == pt and pt == STR:
+                res = N("bin", STR, (xl, y), v="+")
+            elif t == pt and pt == BOOL:
+                res = N("bin", BOOL, (xl, y), v="^")
+            elif t == BOOL:
+                res = mk_cmp("==", xl, y)
+            elif t == pt:
+                res = N("tern", t, (mk_cmp("==", xl, y), xl, y))
+            else:
+                stmts.append(N("let", VOID, (mk_cmp("!=", xl, y),), v=(self.fresh(), BOOL, True, False)))
+                self.locals[-1]["v%d" % self.nlocal] = (BOOL, True)
+                return N("prog", t, (stmts + self.tail(t, "block", 0),))
+            return N("prog", t, (stmts + [N("return", t, (res,))],))
         stmts = self.prelude()
         stmts += self.tail(t, kind, 0)
         return N("prog", t, (stmts,))
@@ -626,6 +656,30 @@ class Gen:
                     continue
                 out.append(N("assign", VOID, (rhs,), v=n))
                 self.feat("assign")
+            elif r < 0.83 and depth < 2:
+                # switch whose every clause (default included) assigns and leaves by `break`: the code after it is
+                # reachable through `break` edges only
+                cands = [(n, lt) for lt in VALUE_TYPES for n in self.lookup_locals(lt, assignable=True)]
+                if not cands:
+                    continue
+                n, lt = rng.choice(cands)
+                st = rng.choice((INT, STR, MODE))
+                subject = self.expr(st, 2)
+                ncase = rng.randint(1, 3)
+                labels = [self.lit(st) for _ in range(ncase)]
+                dpos = rng.randint(0, ncase)
+                bodies = []
+                self.locals.append({})
+                for _ in range(ncase + 1):
+                    rhs = self.expr(lt, 2) if lt != PTR else self.obj_expr(2)
+                    if lt == SLIST and rhs.k == "listlit" and not rhs.a[0]:
+                        rhs = self.p_listlit(SLIST, self.max_depth)
+                        if not rhs.a[0]:
+                            rhs = N("listlit", SLIST, ([self.lit(STR)],))
+                    bodies.append([N("assign", VOID, (rhs,), v=n), N("break", VOID)])
+                self.locals.pop()
+                out.append(N("switch", VOID, (subject, labels, dpos, bodies)))
+                self.feat("switch-assign-all-break")
             elif depth < 2:
                 # conditional assignment in a nested block (with its own scope)
                 if not [1 for lt in VALUE_TYPES for n in self.lookup_locals(lt, assignable=True)]:
